@@ -305,4 +305,128 @@ func runC02(c *Ctx) {
 		c.Eval(true, fmt.Sprint(F, scen, len(order), cases[0].orig.tok[:minInt(80, len(cases[0].orig.tok))]))
 		c.Count(fmt.Sprintf("scenario:%d", scen))
 	})
+	// D. sender and receiver together: several groups queued on ONE real sender (interleaved), sent
+	// with the real Session.next, every transmission through Marshal/Unmarshal into the real receive()
+	// of the peer; one transmission is lost in transit; the peer's SvDrop replies are fed back into
+	// the real receive() of the sender (which then skips the abandoned group in next()). Every group
+	// that lost nothing must arrive exactly once and intact, the others must deliver nothing.
+	c.Cases("senddrop", c.N(300, 4000), func(r *Rng, i int) {
+		F := c02F[r.Intn(len(c02F))]
+		limits.Frag = F
+		dev := newDevID(r)
+		snd, _ := c2.VerifC02NewSession(dev, false, 70000)
+		rcv, msgr := c2.VerifC02NewSession(dev, true, 256)
+		ng := 2 + r.Intn(2)
+		var per [][]*com.Packet
+		var origs []frozen
+		gids := map[uint16]int{}
+		for gi := 0; gi < ng; gi++ {
+			p := genBigPacket(r, F, dev)
+			p.Job = uint16(100 + gi) // distinct jobs: the groups are independent packets
+			origs = append(origs, freeze(p))
+			if err := snd.VerifC02Write(true, p); err != nil {
+				return
+			}
+			frs := snd.VerifC02Drain()
+			if len(frs) < 2 {
+				return
+			}
+			if _, dup := gids[frs[0].Flags.Group()]; dup {
+				return
+			}
+			gids[frs[0].Flags.Group()] = gi
+			per = append(per, frs)
+		}
+		// queue order: group after group, or interleaved keeping each group's own order
+		pos := make([]int, ng)
+		total := 0
+		for _, f := range per {
+			total += len(f)
+		}
+		inter := r.Bool()
+		for q, gi := 0, 0; q < total; q++ {
+			if inter {
+				gi = r.Intn(ng)
+			}
+			for pos[gi] >= len(per[gi]) {
+				gi = (gi + 1) % ng
+			}
+			snd.VerifC02Queue(per[gi][pos[gi]])
+			pos[gi]++
+		}
+		lose := r.Intn(total) // index of the transmission that is lost
+		if r.Chance(60) {
+			lose = r.Intn(minInt(total, 3)) // mostly an early one: the group is then abandoned by the peer
+		}
+		if r.Chance(15) {
+			lose = -1
+		}
+		hurt := make([]bool, ng)
+		delivered := make([]int, ng)
+		var deliveredPk []*com.Packet
+		in := map[string]interface{}{"F": F, "groups": ng, "interleaved": inter, "lost_transmission": lose}
+		for tx := 0; tx < 4*total+8; tx++ {
+			if snd.VerifC02SendLen() == 0 && snd.VerifC02Peek() == nil {
+				break
+			}
+			n := snd.VerifC02Next(true)
+			if n == nil {
+				break
+			}
+			w, err := wireCopy(n)
+			if err != nil {
+				c.Fail("split", "senddrop:not-marshalable", err.Error(), in)
+				return
+			}
+			leaves, err := goUnpack(w, 0)
+			if err != nil {
+				c.Fail("split", "senddrop:not-unpackable", err.Error(), in)
+				return
+			}
+			if tx == lose {
+				for _, l := range leaves {
+					if gi, ok := gids[l.Flags.Group()]; ok && l.Flags&com.FlagFrag != 0 {
+						hurt[gi] = true
+					}
+				}
+				continue
+			}
+			w2, _ := wireCopy(n)
+			before := len(msgr.Evs)
+			if err := rcv.VerifC02Receive(w2); err != nil {
+				c.Fail("reassemble", "senddrop:receive-error", err.Error(), in)
+				return
+			}
+			for _, v := range msgr.Evs[before:] {
+				for gi := range origs {
+					if v.Job == origs[gi].p.Job {
+						delivered[gi]++
+						deliveredPk = append(deliveredPk, v)
+						if d := eqFrozen(origs[gi], v); d != "" && d != "flags" && d != "tags" && d != "tagcount" {
+							c.Fail("reassemble", "senddrop:field:"+d, "reassembled packet differs from the original in "+d, in)
+						}
+					}
+				}
+			}
+			// the peer's replies (SvDrop for a group it has no state for) go back to the sender
+			for _, rp := range rcv.VerifC02Drain() {
+				if rp.ID == c2.VerifC02SvDrop {
+					cp, _ := wireCopy(rp)
+					snd.VerifC02Receive(cp)
+					c.Count("senddrop:svdrop-fed-back")
+				}
+			}
+		}
+		for gi := range origs {
+			switch {
+			case !hurt[gi] && delivered[gi] != 1:
+				c.Fail("reassemble", fmt.Sprintf("senddrop:intact-group-delivered-%d-times", delivered[gi]),
+					fmt.Sprintf("F=%d: a group none of whose fragments was lost was delivered %d times (another group was abandoned by the peer)", F, delivered[gi]), in)
+			case hurt[gi] && delivered[gi] != 0:
+				c.Fail("reassemble", "senddrop:incomplete-group-delivered", "a group with a lost fragment delivered a packet", in)
+			}
+		}
+		c.Count(fmt.Sprintf("senddrop:lost=%v,inter=%v", lose >= 0, inter))
+		c.Eval(true, fmt.Sprint("senddrop", F, ng, inter, lose, origs[0].tok[:minInt(60, len(origs[0].tok))]))
+	})
 }
